@@ -25,12 +25,15 @@ COMMENT = ("COMMENT", "/*=*/", None)      # a comment that contains an equals si
 # swallows the rest of the text unless a later token happens to close it
 BADQ = ("BADQ", '"s', None)
 BADU = ("BADU", "<m", None)
+BADQ2 = ("BADQ", "\"s'", None)         # opened with one quote character, "closed" with the other
+BADC = ("BADC", "/* c", None)          # an unterminated comment
 
 ALPHABET18 = [A, B, EQ, ONE, QS, LP, RP, LB, RB, COMMA, SEMI, UNITS,
               GROUP, OBJECT, END_GROUP, END_OBJECT, END, COMMENT]
 BEGIN_GROUP = ("BEGIN", "BEGIN_GROUP", "G")      # not a keyword of the ISIS grammar: a plain name there
 ALPHABET20 = ALPHABET18 + [BADQ, BADU]
 ALPHABET21 = ALPHABET20 + [BEGIN_GROUP]
+ALPHABET23 = ALPHABET21 + [BADQ2, BADC]
 
 
 def for_dialect(seq, dialect):
@@ -51,6 +54,11 @@ def render(seq, sep=" "):
 _TIGHT = ("EQ", "COMMA", "LP", "RP", "LB", "RB", "SEMI")
 
 
+def render_lines(seq):
+    """every token on its own line, the text ends with a line end"""
+    return "\n".join(t[1] for t in seq) + "\n"
+
+
 def render_compact(seq):
     """No white space wherever the grammar makes it optional (around '=', ',',
     brackets, ';', before units); one space elsewhere."""
@@ -59,7 +67,7 @@ def render_compact(seq):
         if i > 0:
             left = seq[i - 1]
             tight = left[0] in _TIGHT or t[0] in _TIGHT or t[0] in ("UNITS", "BADU")
-            if left[0] in ("BADQ", "BADU", "COMMENT") or t[0] == "COMMENT":
+            if left[0] in ("BADQ", "BADU", "BADC", "COMMENT") or t[0] in ("COMMENT", "BADC"):
                 tight = False
             out.append("" if tight else " ")
         out.append(t[1])
